@@ -37,7 +37,13 @@ func H_C18() {
 	nNext := []int{0, 1, 2, 9}[vx.Choice("nNext", 3+vx.Param("MANY", 0))] // MANY=1: also a wide merge entry (9 predecessors)
 	nRefs := []int{0, 1, 2, 9}[vx.Choice("nRefs", 3+vx.Param("MANY", 0))]
 	next, refs := cids(10, nNext), cids(20, nRefs)
-	switch vx.Choice("linkShape", 3) {
+	abstract := append(append([]cid.Cid{}, next...), refs...) // the links whose presence in the stored bytes can be looked for
+	switch vx.Choice("linkShape", 4) {
+	case 3: // real identifiers of older forms among the links (the first entry of a log migrated from the legacy codec)
+		forms := linkForms()
+		next = append(next, forms[0])
+		refs = append(refs, forms[1])
+		vx.Cover("legacy-link-forms")
 	case 1: // the lists overlap (Append never builds such an entry; CreateEntryWithIO accepts it)
 		vx.Assume(nNext > 0 && nRefs > 0)
 		refs[0] = next[0]
@@ -86,7 +92,7 @@ func H_C18() {
 	}
 	vx.Assert("C18", len(nd.Links()) == 0, "the stored block has no traversable links")
 	raw := nd.RawData()
-	for _, c := range append(append([]cid.Cid{}, next...), refs...) {
+	for _, c := range abstract {
 		vx.Assert("C18", !bytes.Contains(raw, c.Bytes()), "the stored block does not contain a predecessor/reference identifier in binary form")
 		vx.Assert("C18", !bytes.Contains(raw, []byte(c.String())), "the stored block does not contain a predecessor/reference identifier as text")
 	}
